@@ -24,13 +24,21 @@ CONSTANTS Alphabet,    \* byte values of the explored strings
           MaxDst,      \* largest total size of a copy destination
           MaxDstFrag,  \* most fragments of a copy destination
           MaxQ,        \* largest queue capacity for message_get
-          Ops          \* enabled operation families
+          Ops,         \* enabled operation families
+          EmptyBases,  \* where the base of a zero-length fragment points: "slice" (own block), "null",
+                       \* "guard" (inaccessible page), "foreign" (unrelated memory filled with ForeignBytes)
+          ForeignBytes,\* byte values the unrelated memory behind an empty fragment is filled with
+          ArrKinds,    \* arrays a message is appended to: "exact" (no buffer / buffer exactly full),
+                       \* "shared" (buffer with a second owner), "roomy" (spare capacity for the message)
+          MaxFail      \* allocation failure is injected at the k-th allocation of an append, k <= MaxFail
 
 VARIABLES flat,        \* Tier 1
           cur, cont,   \* Tier 2
           mode,        \* "blank" before the first message, then "msg"
+          ebase,       \* <<kind, fill>>: what the bases of zero-length fragments point to (no meaning:
+                       \* no operator below looks at it -- a length of zero says "nothing to read here")
           obs, des
-vars == <<flat, cur, cont, mode, obs, des>>
+vars == <<flat, cur, cont, mode, ebase, obs, des>>
 
 ---------------------------------------------------------------------------
 (* bytes and classes (C locale) *)
@@ -141,6 +149,12 @@ ArgsF(s, sep, acc, n) ==
            r   == ReadF(a.rest, len)
        IN ArgsF(Drop(r.rest, 1), sep, acc \o r.out \o <<0>>, n + 1)
 ArrMsgF(s, sep) == ArgsF(s, sep, <<>>, 0)
+
+(* mpt_message_append: the string follows the array content; when an allocation the call needs  *)
+(* fails the call is refused and the array holds what it held before (no part of the message).  *)
+AppendF(pre, s, failed) ==
+  IF failed THEN [ret |-> "refused", val |-> <<>>, out |-> pre]
+  ELSE [ret |-> "ok", val |-> <<>>, out |-> pre \o s]
 
 (* mpt_message_get: take bytes at pos of the queue content *)
 GetF(content, pos, take) ==
@@ -278,6 +292,22 @@ ArgsD(c, ct, sep, acc, n) ==
 RECURSIVE AppendD(_, _)
 AppendD(acc, fr) == IF fr = <<>> THEN acc ELSE AppendD(acc \o Head(fr), Tail(fr))
 
+\* ... on an array of a kind, every non-empty fragment is one mpt_array_append that may have to
+\* allocate: always when the buffer is absent, exactly full or shared (the replacement is exactly
+\* sized again), only for the absent buffer when there is spare capacity.  k counts down to the
+\* allocation that fails (0: none does); a refused fragment rolls the array back to pre.
+RECURSIVE NonEmpty(_)
+NonEmpty(fr) == IF fr = <<>> THEN 0 ELSE (IF Head(fr) = <<>> THEN 0 ELSE 1) + NonEmpty(Tail(fr))
+NeedAlloc(kind, pre, fr) ==
+  IF kind = "roomy" THEN (IF pre = <<>> /\ NonEmpty(fr) > 0 THEN 1 ELSE 0) ELSE NonEmpty(fr)
+RECURSIVE AppendFailD(_, _, _, _, _)
+AppendFailD(pre, acc, fr, kind, k) ==
+  IF fr = <<>> THEN [ret |-> "ok", val |-> <<>>, out |-> acc]
+  ELSE IF Head(fr) = <<>> THEN AppendFailD(pre, acc, Tail(fr), kind, k)
+  ELSE LET alloc == kind # "roomy" \/ acc = <<>> IN
+       IF alloc /\ k = 1 THEN [ret |-> "refused", val |-> <<>>, out |-> pre]
+       ELSE AppendFailD(pre, acc \o Head(fr), Tail(fr), kind, IF alloc /\ k > 0 THEN k - 1 ELSE k)
+
 \* mpt_message_get on a ring (max, qoff) holding data: first part up to the
 \* storage border, second part from the storage start
 Ring(max, qoff, data) ==
@@ -302,7 +332,7 @@ GetD(max, qoff, data, pos, take) ==
 ---------------------------------------------------------------------------
 (* actions: one per public call *)
 Exp(r, out, content) == [ret |-> r.ret, val |-> r.val, out |-> out, content |-> content]
-Keep == UNCHANGED <<flat, cur, cont, mode>>
+Keep == UNCHANGED <<flat, cur, cont, mode, ebase>>
 
 \* a pure question about the fragment list
 Ask(a, arg, e, d) ==
@@ -310,10 +340,10 @@ Ask(a, arg, e, d) ==
   /\ obs' = [a |-> a, arg |-> arg, exp |-> Exp(e, <<>>, flat)]
   /\ des' = Exp(d, <<>>, Flat(Frags))
 
-InitMsg(data, cut) ==
+InitMsg(data, cut, eb, fb) ==
   LET fr == CutUp(data, cut) IN
-  /\ flat' = data /\ cur' = fr[1] /\ cont' = Tail(fr) /\ mode' = "msg"
-  /\ obs' = [a |-> "init", arg |-> [data |-> data, cut |-> cut],
+  /\ flat' = data /\ cur' = fr[1] /\ cont' = Tail(fr) /\ mode' = "msg" /\ ebase' = <<eb, fb>>
+  /\ obs' = [a |-> "init", arg |-> [data |-> data, cut |-> cut, eb |-> eb, fb |-> fb],
              exp |-> [ret |-> "ok", val |-> <<>>, out |-> <<>>, content |-> data]]
   /\ des' = [ret |-> "ok", val |-> <<>>, out |-> <<>>, content |-> Flat(fr)]
 
@@ -321,7 +351,7 @@ QGet(max, qoff, data, pos, take) ==
   LET e == GetF(data, pos, take)
       d == GetD(max, qoff, data, pos, take)
   IN
-  /\ flat' = e.content /\ cur' = d.cur /\ cont' = d.cont /\ mode' = "msg"
+  /\ flat' = e.content /\ cur' = d.cur /\ cont' = d.cont /\ mode' = "msg" /\ ebase' = <<"slice", 0>>
   /\ obs' = [a |-> "qget", arg |-> [max |-> max, qoff |-> qoff, data |-> data, pos |-> pos, take |-> take],
              exp |-> [ret |-> e.ret, val |-> <<>>, out |-> <<>>, content |-> e.content]]
   /\ des' = [ret |-> IF d.inside THEN d.ret ELSE "outside", val |-> <<>>, out |-> <<>>,
@@ -331,7 +361,7 @@ Read(n, dest) ==
   LET e == ReadF(flat, n)
       d == ReadD(cur, cont, n, <<>>)
   IN
-  /\ flat' = e.rest /\ cur' = d.cur /\ cont' = d.cont /\ UNCHANGED mode
+  /\ flat' = e.rest /\ cur' = d.cur /\ cont' = d.cont /\ UNCHANGED <<mode, ebase>>
   /\ obs' = [a |-> "read", arg |-> [n |-> n, dest |-> dest],
              exp |-> [ret |-> "ok", val |-> <<Len(e.out)>>,
                       out |-> IF dest = 1 THEN e.out ELSE <<>>, content |-> e.rest]]
@@ -344,7 +374,7 @@ Argv(sep) ==
   LET e == ArgvF(flat, sep)
       d == ArgvD(cur, cont, sep)
   IN
-  /\ flat' = e.rest /\ cur' = d.cur /\ cont' = d.cont /\ UNCHANGED mode
+  /\ flat' = e.rest /\ cur' = d.cur /\ cont' = d.cont /\ UNCHANGED <<mode, ebase>>
   /\ obs' = [a |-> "argv", arg |-> [sep |-> sep], exp |-> Exp(e, <<>>, e.rest)]
   /\ des' = Exp(d, <<>>, Flat(<<d.cur>> \o d.cont))
 
@@ -385,11 +415,14 @@ Memcpy(n, dcut) ==
   /\ obs' = [a |-> "memcpy", arg |-> [n |-> n, dcut |-> dcut], exp |-> Exp(e, e.out, flat)]
   /\ des' = Exp(d, d.out, Flat(Frags))
 
-MsgAppend(pre) ==
+\* fail = k > 0: the k-th allocation of the call fails (none does when the call needs fewer)
+MsgAppend(pre, kind, fail) ==
+  LET e == AppendF(pre, flat, fail \in 1..NeedAlloc(kind, pre, Frags))
+      d == AppendFailD(pre, pre, Frags, kind, fail)
+  IN
   /\ Keep
-  /\ obs' = [a |-> "append", arg |-> [pre |-> pre],
-             exp |-> [ret |-> "ok", val |-> <<>>, out |-> pre \o flat, content |-> flat]]
-  /\ des' = [ret |-> "ok", val |-> <<>>, out |-> AppendD(pre, Frags), content |-> Flat(Frags)]
+  /\ obs' = [a |-> "append", arg |-> [pre |-> pre, kind |-> kind, fail |-> fail], exp |-> Exp(e, e.out, flat)]
+  /\ des' = Exp(d, d.out, Flat(Frags))
 
 ---------------------------------------------------------------------------
 (* bounded exploration *)
@@ -411,14 +444,16 @@ EscArgs  == {<<>>} \cup (IF Alphabet \cap Quotes # {} THEN {<<39, 34>>} ELSE {})
 DstCuts  == UNION {Comps(n, k) : n \in 0..MaxDst, k \in 1..MaxDstFrag}
 
 Init ==
-  /\ flat = <<>> /\ cur = <<>> /\ cont = <<>> /\ mode = "blank"
+  /\ flat = <<>> /\ cur = <<>> /\ cont = <<>> /\ mode = "blank" /\ ebase = <<"slice", 0>>
   /\ obs = [a |-> "none", arg |-> [x |-> 0],
             exp |-> [ret |-> "ok", val |-> <<>>, out |-> <<>>, content |-> <<>>]]
   /\ des = [ret |-> "ok", val |-> <<>>, out |-> <<>>, content |-> <<>>]
 
 Start ==
   \/ \E data \in Strings(MaxLen), k \in 1..MaxFrag :
-        \E cut \in Comps(Len(data), k) : InitMsg(data, cut)
+        \E cut \in Comps(Len(data), k) :
+          \E eb \in (IF \E i \in 1..k : cut[i] = 0 THEN EmptyBases ELSE {"slice"}) :
+            \E fb \in (IF eb = "foreign" THEN ForeignBytes ELSE {0}) : InitMsg(data, cut, eb, fb)
   \/ /\ "qget" \in Ops
      /\ \E max \in 0..MaxQ, pos \in 0..(MaxQ + 1), take \in 0..(MaxQ + 1) :
         \E qoff \in (IF max = 0 THEN {0} ELSE 0..(max - 1)), data \in Strings(max) :
@@ -436,7 +471,10 @@ Step ==
   \/ /\ "memcpy" \in Ops
      /\ Cardinality(Range(flat)) = Len(flat)   \* copying looks at no byte value: explored on
      /\ \E n \in (-1)..(MaxDst + 1), dcut \in DstCuts : Memcpy(n, dcut)   \* strings that show every misplacement
-  \/ "append" \in Ops /\ \E pre \in {<<>>, <<7, 8>>} : MsgAppend(pre)
+  \/ /\ "append" \in Ops
+     /\ \E pre \in {<<>>, <<7, 8>>}, kind \in ArrKinds :
+          \E fail \in 0..(IF kind = "roomy" THEN Min(1, MaxFail) ELSE MaxFail) :
+             (kind = "shared" => pre # <<>>) /\ MsgAppend(pre, kind, fail)
 
 Next == IF mode = "blank" THEN Start ELSE Step
 
